@@ -46,7 +46,7 @@ def init(ctx):
     ctx.ob("FRM", PC + ".__init__", "bins = floor(sqrt(window_size))",
            fin.get("bins") == atom(("call", "int", (atom(("call", "floor", (atom(("call", "sqrt", (w,), ())),), ())),), ())), q.short(fin.get("bins"), 60))
     new = [e for e in tr.calls() if e.callee == ("new", "PageHinkley")]
-    kw = dict(new[0].kwargs) if new else {}
+    kw = q.bind(new[0]) if new else {}
     ok = len(new) == 1 and kw.get("delta") == P("delta") and kw.get("threshold") == fin.get("ph_threshold") and kw.get("burn_in") == const(0)
     ctx.ob("FWD", PC + ".__init__", "monitor = PageHinkley(delta, threshold = 1% of window, burn_in = 0)", ok, "", new[0] if new else None)
     ctx.ob("FWD", PC + ".__init__", "monitor direction is the Page-Hinkley default (positive)", "direction" not in kw and len(new[0].args) == 0 if new else False, "")
@@ -100,12 +100,16 @@ def scoring(ctx, cell):
             proj = tr.loops[pa_[1]]["pre"].locs.get(proj_name)
     proj0 = q.unmut(proj) if proj is not None else None
     okp = False
+    shaped = False
     if proj0 is not None and obs is not None:
         a = proj0.single_atom()
         if a is not None and a[0] == "call" and a[1] == "pandas.DataFrame":
-            t = a[2][0].single_atom()
+            t = a[2][0].single_atom() if a[2] else None
+            shaped = t is not None and t[0] == "mcall"
             okp = t is not None and t[0] == "mcall" and t[2] == "transform" and t[1] == A("_pca") and T.mentions(t[3][0], lambda z: z == obs.single_atom())
-    ctx.ob("FRM", U, "new observation projected on the reference components and appended to the test scores [%s]" % L, okp, "", tp_ev)
+    # the row appended is DataFrame(<projection call>), possibly clipped afterwards; any other way of building the row is not followed
+    if ctx.anchor(U, "the appended score row is a frame built from one projection call [%s]" % L, shaped or proj0 is None or obs is None, q.short(proj0, 120) if proj0 is not None else "", tp_ev):
+        ctx.ob("FRM", U, "new observation projected on the reference components and appended to the test scores [%s]" % L, okp, "", tp_ev)
 
     class _NP:
         value = proj0
